@@ -271,6 +271,11 @@ impl<T: Types> RaftLog<T> {
                 break;
             }
 
+            // The previous owner of this directory may have stopped after a
+            // failed sync: make sure what has just been loaded is durable
+            // before anything written after it can be acknowledged.
+            chunk.f.sync_data()?;
+
             prev_end_offset = Some(chunk.global_end());
             last_log_id = sm.log_state.last.clone();
 
